@@ -81,16 +81,25 @@ impl<'a, 'ast> Visit<'ast> for FnScan<'a> {
     }
     fn visit_expr_method_call(&mut self, m: &'ast syn::ExprMethodCall) {
         let name = m.method.to_string();
-        if is_field0(&m.receiver) && matches!(name.as_str(), "iter_mut" | "as_mut" | "borrow_mut" | "get_mut" | "deref_mut" | "as_mut_slice" | "as_mut_str") {
+        if is_field0(&m.receiver) && matches!(name.as_str(), "iter_mut" | "as_mut" | "borrow_mut" | "get_mut" | "deref_mut" | "as_mut_slice" | "as_mut_str" | "clear" | "push" | "push_str" | "insert" | "insert_str" | "truncate" | "extend" | "append" | "retain" | "drain" | "pop" | "remove" | "sort" | "sort_unstable" | "dedup" | "reverse" | "swap" | "fill" | "make_ascii_lowercase" | "make_ascii_uppercase" | "clone_from") {
             self.stats.problems.push(("mutable-view-of-inner-field".into(), self.type_name.into(), format!("{name} in fn {}", self.fn_name)));
         }
         syn::visit::visit_expr_method_call(self, m);
     }
 }
 
+/// `<x>.0` where `<x>` is a plain binding (`self`, `place`, `value`), possibly dereferenced / parenthesised
 fn is_field0(e: &syn::Expr) -> bool {
+    fn simple_base(e: &syn::Expr) -> bool {
+        match e {
+            syn::Expr::Path(p) => p.path.get_ident().is_some(),
+            syn::Expr::Paren(p) => simple_base(&p.expr),
+            syn::Expr::Unary(u) if matches!(u.op, syn::UnOp::Deref(_)) => simple_base(&u.expr),
+            _ => false,
+        }
+    }
     match e {
-        syn::Expr::Field(f) => matches!(&f.member, syn::Member::Unnamed(i) if i.index == 0) && matches!(&*f.base, syn::Expr::Path(p) if p.path.is_ident("self")),
+        syn::Expr::Field(f) => matches!(&f.member, syn::Member::Unnamed(i) if i.index == 0) && simple_base(&f.base),
         syn::Expr::Paren(p) => is_field0(&p.expr),
         _ => false,
     }
@@ -148,6 +157,20 @@ fn scan_module(m: &syn::ItemMod, stats: &mut ScanStats, seen: &mut BTreeSet<Stri
                                         }
                                     }
                                 }
+                            }
+                        }
+                        // any function of the expansion that receives a mutable reference to the newtype can
+                        // change an existing value (e.g. an overridden Deserialize::deserialize_in_place)
+                        for inp in f.sig.inputs.iter() {
+                            let mutable_newtype = match inp {
+                                syn::FnArg::Receiver(r) => self_is_type && r.reference.is_some() && r.mutability.is_some(),
+                                syn::FnArg::Typed(pt) => match &*pt.ty {
+                                    syn::Type::Reference(tr) if tr.mutability.is_some() => type_mentions(&tr.elem, type_name) || (self_is_type && matches!(&*tr.elem, syn::Type::Path(p) if p.path.is_ident("Self"))),
+                                    _ => false,
+                                },
+                            };
+                            if mutable_newtype {
+                                stats.problems.push(("function-takes-mutable-reference-to-newtype".into(), type_name.into(), fn_name.clone()));
                             }
                         }
                         let mut v = FnScan { type_name, fn_name, fn_unsafe: f.sig.unsafety.is_some(), stats };
